@@ -18,8 +18,14 @@ type E = DefaultEngine<U>;
 type T = LTerm<U, E>;
 const NV: usize = 3;
 
+// two distinct #[compound] types that share their unqualified name and arity: they must never unify
+mod ca { use proto_vulcan::prelude::*; #[compound] pub struct Point(pub LTerm, pub LTerm); }
+mod cb { use proto_vulcan::prelude::*; #[compound] pub struct Point(pub LTerm, pub LTerm); }
+fn mk_pa(a: T, b: T) -> T { Into::<T>::into(ca::Point_compound::_InnerPoint::<U, E>(a, b)) }
+fn mk_pb(a: T, b: T) -> T { Into::<T>::into(cb::Point_compound::_InnerPoint::<U, E>(a, b)) }
+
 #[derive(Clone, Debug, PartialEq, Eq, PartialOrd, Ord)]
-pub enum R { V(usize), N(isize), Nil, Cons(Box<R>, Box<R>), Pair(Box<R>, Box<R>) }
+pub enum R { V(usize), N(isize), Nil, Cons(Box<R>, Box<R>), Pair(Box<R>, Box<R>), PA(Box<R>, Box<R>), PB(Box<R>, Box<R>) }
 
 impl R {
     fn show(&self) -> String {
@@ -27,6 +33,8 @@ impl R {
             R::V(i) => format!("x{}", i), R::N(k) => k.to_string(), R::Nil => "[]".into(),
             R::Cons(h, t) => format!("({} . {})", h.show(), t.show()),
             R::Pair(a, b) => format!("<{}, {}>", a.show(), b.show()),
+            R::PA(a, b) => format!("ca::Point({}, {})", a.show(), b.show()),
+            R::PB(a, b) => format!("cb::Point({}, {})", a.show(), b.show()),
         }
     }
     fn build(&self, vars: &[T]) -> T {
@@ -34,6 +42,8 @@ impl R {
             R::V(i) => vars[*i].clone(), R::N(k) => LTerm::from(*k), R::Nil => LTerm::empty_list(),
             R::Cons(h, t) => LTerm::cons(h.build(vars), t.build(vars)),
             R::Pair(a, b) => (a.build(vars), b.build(vars)).into(),
+            R::PA(a, b) => mk_pa(a.build(vars), b.build(vars)),
+            R::PB(a, b) => mk_pb(a.build(vars), b.build(vars)),
         }
     }
 }
@@ -45,11 +55,13 @@ fn walk_star(s: &Sub, t: &R) -> R {
     match walk(s, t) {
         R::Cons(h, t2) => R::Cons(Box::new(walk_star(s, &h)), Box::new(walk_star(s, &t2))),
         R::Pair(a, b) => R::Pair(Box::new(walk_star(s, &a)), Box::new(walk_star(s, &b))),
+        R::PA(a, b) => R::PA(Box::new(walk_star(s, &a)), Box::new(walk_star(s, &b))),
+        R::PB(a, b) => R::PB(Box::new(walk_star(s, &a)), Box::new(walk_star(s, &b))),
         w => w,
     }
 }
 fn occurs(s: &Sub, x: usize, t: &R) -> bool {
-    match walk(s, t) { R::V(j) => j == x, R::Cons(a, b) | R::Pair(a, b) => occurs(s, x, &a) || occurs(s, x, &b), _ => false }
+    match walk(s, t) { R::V(j) => j == x, R::Cons(a, b) | R::Pair(a, b) | R::PA(a, b) | R::PB(a, b) => occurs(s, x, &a) || occurs(s, x, &b), _ => false }
 }
 fn unify(s: Sub, a: &R, b: &R) -> Option<Sub> {
     let (a, b) = (walk(&s, a), walk(&s, b));
@@ -59,7 +71,7 @@ fn unify(s: Sub, a: &R, b: &R) -> Option<Sub> {
         (_, R::V(j)) => if occurs(&s, *j, &a) { None } else { let mut s = s; s.insert(*j, a.clone()); Some(s) },
         (R::N(x), R::N(y)) => if x == y { Some(s) } else { None },
         (R::Nil, R::Nil) => Some(s),
-        (R::Cons(h1, t1), R::Cons(h2, t2)) | (R::Pair(h1, t1), R::Pair(h2, t2)) => unify(s, h1, h2).and_then(|s| unify(s, t1, t2)),
+        (R::Cons(h1, t1), R::Cons(h2, t2)) | (R::Pair(h1, t1), R::Pair(h2, t2)) | (R::PA(h1, t1), R::PA(h2, t2)) | (R::PB(h1, t1), R::PB(h2, t2)) => unify(s, h1, h2).and_then(|s| unify(s, t1, t2)),
         _ => None,
     }
 }
@@ -73,7 +85,12 @@ fn read(t: &T, vars: &[T]) -> R {
     // compounds: through the Debug text would be fragile; use the structural API of CompoundObject
     if let LTermInner::Compound(c) = t.as_ref() {
         let kids: Vec<R> = c.children().map(|ch| read(ch.as_term().expect("term child"), vars)).collect();
-        return match kids.len() { 2 => R::Pair(Box::new(kids[0].clone()), Box::new(kids[1].clone())), _ => panic!("unexpected compound arity") };
+        let (a, b) = (Box::new(kids[0].clone()), Box::new(kids[1].clone()));
+        // which compound type: re-build each candidate around the same children and compare with the term itself
+        let (ta, tb) = (a.build(vars), b.build(vars));
+        if *t == mk_pa(ta.clone(), tb.clone()) { return R::PA(a, b); }
+        if *t == mk_pb(ta.clone(), tb.clone()) { return R::PB(a, b); }
+        return R::Pair(a, b);
     }
     panic!("unreadable term {:?}", t)
 }
@@ -84,7 +101,7 @@ fn renaming(a: &[R], b: &[R]) -> bool {
         match (a, b) {
             (R::V(i), R::V(j)) => { if *f.entry(*i).or_insert(*j) != *j { return false; } *g.entry(*j).or_insert(*i) == *i }
             (R::N(x), R::N(y)) => x == y, (R::Nil, R::Nil) => true,
-            (R::Cons(a1, a2), R::Cons(b1, b2)) | (R::Pair(a1, a2), R::Pair(b1, b2)) => go(a1, b1, f, g) && go(a2, b2, f, g),
+            (R::Cons(a1, a2), R::Cons(b1, b2)) | (R::Pair(a1, a2), R::Pair(b1, b2)) | (R::PA(a1, a2), R::PA(b1, b2)) | (R::PB(a1, a2), R::PB(b1, b2)) => go(a1, b1, f, g) && go(a2, b2, f, g),
             _ => false,
         }
     }
@@ -103,6 +120,10 @@ fn universe(depth: usize) -> Vec<R> {
         for a in &small { for b in &small {
             next.push(R::Cons(Box::new(a.clone()), Box::new(b.clone())));
             next.push(R::Pair(Box::new(a.clone()), Box::new(b.clone())));
+            if small.iter().position(|x| x == a).unwrap() < 5 && small.iter().position(|x| x == b).unwrap() < 5 {
+                next.push(R::PA(Box::new(a.clone()), Box::new(b.clone())));
+                next.push(R::PB(Box::new(a.clone()), Box::new(b.clone())));
+            }
         } }
         all.extend(next.iter().cloned());
         prev = next;
@@ -150,12 +171,14 @@ fn case(rep: &mut Report, pre: Option<(&R, &R)>, a: &R, b: &R) {
 pub fn search(tier: &str, _only: Option<&str>) {
     let depth = 1;
     let uni = universe(depth);
-    let mut rep = Report::new("unify", &format!("all pairs of {} terms (variables x0..x2, 1, 2, [], and one level of cons / pair over them) from the empty substitution; {} after one earlier unification", uni.len(), if tier == "thorough" { "all pairs x 40 earlier unifications" } else { "every third pair x 12 earlier unifications" }));
+    let mut rep = Report::new("unify", &format!("all pairs of {} terms (variables x0..x2, 1, 2, [], and one level of cons / pair / two #[compound] structs over them) from the empty substitution; {} after one earlier unification", uni.len(), if tier == "thorough" { "all pairs x 40 earlier unifications" } else { "every third pair x 12 earlier unifications" }));
     for a in &uni { for b in &uni { case(&mut rep, None, a, b); } }
     // deeper hand-picked occurs-check shapes
     let v = |i| R::V(i);
     let cons = |a: R, b: R| R::Cons(Box::new(a), Box::new(b));
     let pair = |a: R, b: R| R::Pair(Box::new(a), Box::new(b));
+    let pa = |a: R, b: R| R::PA(Box::new(a), Box::new(b));
+    let pb = |a: R, b: R| R::PB(Box::new(a), Box::new(b));
     let deep = vec![
         (None, v(0), cons(R::N(1), cons(v(0), R::Nil))),
         (None, v(0), pair(R::N(1), pair(v(0), R::N(2)))),
@@ -164,6 +187,13 @@ pub fn search(tier: &str, _only: Option<&str>) {
         (Some((v(1), v(0))), v(0), cons(v(1), R::Nil)),
         (Some((v(0), v(1))), v(1), cons(R::N(1), v(0))),
         (Some((cons(v(0), v(1)), cons(v(1), v(2)))), v(2), cons(v(0), R::Nil)),
+        // compound structs: a variable bound only inside a field's value; a compound nested through a variable field;
+        // same-named compound types from different modules
+        (Some((v(2), R::N(2))), pa(v(0), cons(R::N(1), cons(v(2), R::Nil))), pa(R::N(1), cons(R::N(1), cons(R::N(2), R::Nil)))),
+        (Some((v(1), pa(v(2), R::N(2)))), pa(R::N(1), v(1)), pa(R::N(1), pa(R::N(1), R::N(2)))),
+        (None, pa(v(0), R::N(2)), pb(R::N(1), v(1))),
+        (Some((v(0), pa(R::N(1), R::N(2)))), v(0), pb(R::N(1), R::N(2))),
+        (None, v(0), pa(R::N(1), pa(v(0), R::N(2)))),
     ];
     for (pre, a, b) in &deep { case(&mut rep, pre.as_ref().map(|(p, q)| (p, q)), a, b); }
     let pres: Vec<(R, R)> = {
